@@ -184,6 +184,26 @@ def run(ctx):
             from_art = True
     rep.check(from_art and bool(ent), "C16.R5", "witness-basis:bounded-by-resolved-tick", "tail bounds are compared against the artifact's resolved tick; entries looked up (%d sites)" % len(ent),
               "the witness tail is no longer bounded by the artifact's resolved tick", site=wb.loc())
+    # a provenance coordinate names ONE recorded commit by (worldline, tick, commit hash): each identifying field of the
+    # reference must take part in a comparison somewhere in the optic read tree (a field that is never compared cannot make
+    # "history unavailable" visible — the read is then answered from whatever commit sits at that tick)
+    oi = prog.fn(OB + "ObservationService::observe_optic_inner")
+    otree = [g for g in tree(prog, [oi], stop=lambda i: not i.startswith(OB))[0] if g.id.startswith(OB)]
+    PR = "warp_core::provenance_store::ProvenanceRef"
+    prog.adt(PR)
+    compared = set()
+    for g in otree:
+        og_ = g.origins()
+        for (bb, kind, a, b, res, line) in comparisons(g):
+            for o in (a, b):
+                for at in og_.of_operand(o, deep=True):
+                    for st_ in at.steps:
+                        if isinstance(st_, tuple) and st_[0] == PR:
+                            compared.add(st_[2])
+    for fld in ("worldline_id", "commit_hash"):
+        rep.check(fld in compared, "C16.R5", "provenance-coordinate:%s-compared" % fld, "the reference's %s is compared during the optic read" % fld,
+                  "CoordinateAt::Provenance(reference): reference.%s is never compared in the optic read tree — a reference naming a commit this history does not contain is answered "
+                  "with a reading of the commit that happens to sit at that tick" % fld, site=oi.loc())
     # ---- R6
     fns_rc = [rc] + [prog.fns[c] for c in prog.closures_in(rc.id)]
     live = constructed_variants(fns_rc, OB + "ObservationError")
